@@ -82,7 +82,8 @@ def make_scenario(seed, idx, tool):
     rate = int(rng.choice([8000, 16000]))
     comp = computer_cfg(rng, rate, allow_none=(tool == "torch"))
     odd = idx % 6 == 5
-    while odd and (comp is None or comp["name"] != "stft"):
+    one = idx % 6 == 1  # focus on the utterance with exactly one frame: an STFT pipeline with post-processors, nothing excluded by duration
+    while (odd or one) and (comp is None or comp["name"] != "stft"):
         comp = computer_cfg(rng, rate, allow_none=False)
     if odd:
         # a complex bank reaching Nyquist with an unpadded, odd DFT size (mirrored-bin walk of the torch port)
@@ -93,7 +94,7 @@ def make_scenario(seed, idx, tool):
         # every (frame style, kaldi_shift) combination occurs, in turn (kaldi_shift is a no-op for causal frames)
         comp["frame_style"], comp["kaldi_shift"] = [("centered", False), ("causal", True), ("centered", True), ("causal", False)][idx % 4]
     kind = str(rng.choice(["pipeline", "pipeline", "pipeline", "dither", "order"]))
-    if odd:
+    if odd or one:
         kind = "pipeline"
     pre, post = [], []
     if kind == "pipeline":
@@ -104,7 +105,7 @@ def make_scenario(seed, idx, tool):
         if rng.random() < 0.2:
             pre.append({"name": "dither", "coeff": 0.0})
         if comp is not None:
-            for _ in range(int(rng.integers(0, 3))):
+            for _ in range(int(rng.integers(0, 3)) or int(idx % 2)):  # odd-numbered pipeline scenarios have at least one post-processor
                 post.append(copy.deepcopy([{"name": "deltas", "num_deltas": int(rng.integers(1, 3))}, {"name": "stack", "num_vectors": int(rng.integers(2, 4))},
                                            {"name": "standardize", "rfilename": "@STATS@"}][int(rng.integers(3))]))
     elif kind == "dither":
@@ -121,27 +122,33 @@ def make_scenario(seed, idx, tool):
         n = int(rng.integers(int(0.05 * rate), int(0.25 * rate)))
         utts.append({"id": "utt%d%s" % (u, str(rng.choice(["", "-a", "_x"]))), "n": n, "channels": (channel + 1 + int(rng.integers(0, 2))) if multi else 1, "rate": rate,
                      "container": "wav" if tool == "kaldi" else str(rng.choice(["npy", "pt", "npz", "hdf5"] if multi else ["wav", "npy", "pt", "npz", "hdf5", "sph"]))})
+    i_one, i_short = (int(v) for v in rng.permutation(nutt)[:2])  # two different utterances
     if comp is not None and comp["name"] == "stft":
         # an utterance that yields exactly one frame
         fl, fs = int(0.001 * comp["frame_length_ms"] * rate), int(0.001 * comp["frame_shift_ms"] * rate)
         lo, hi = max(fl // 2 + 1, fs - fs // 2), 2 * fs - fs // 2
         if lo < hi:
-            utts[int(rng.integers(nutt))]["n"] = int(rng.integers(lo, hi))
+            utts[i_one]["n"] = int(rng.integers(lo, hi))
     deltas_in_post = any(p["name"] in ("deltas", "standardize") for p in post)
     if not (tool == "torch" and deltas_in_post):
-        utts[int(rng.integers(nutt))]["n"] = int(rng.integers(1, 40))  # too short for a frame
+        utts[i_short]["n"] = int(rng.integers(1, 40))  # too short for a frame
     scn = {"tool": tool, "idx": idx, "kind": kind, "rate": rate, "computer": comp, "pre": pre, "post": post, "utts": utts, "channel": channel,
            "syntax": [str(s) for s in rng.permutation(["inline", "json", "yaml"])[:2]], "seed_opt": 0 if idx % 3 == 0 else int(rng.integers(0, 1000))}
     if tool == "kaldi":
         scn["min_duration"] = 0.0
-        if rng.random() < 0.5:
+        r = rng.random()
+        if r < 0.3:
             scn["min_duration"] = 0.04
             utts.append({"id": "tooshortdur", "n": int(0.02 * rate), "channels": utts[0]["channels"], "rate": rate, "container": "wav", "excluded": "min_duration"})
-        elif rng.random() < 0.6:
+        elif r < 0.6:
             # a threshold exactly equal to one utterance's duration: that utterance is NOT shorter, so it is kept
-            scn["min_duration"] = 0.25
-            utts.append({"id": "exactdur", "n": int(0.25 * rate), "channels": utts[0]["channels"], "rate": rate, "container": "wav"})
-            utts.append({"id": "justbelow", "n": int(0.25 * rate) - 1, "channels": utts[0]["channels"], "rate": rate, "container": "wav", "excluded": "min_duration"})
+            # (1/16 s is exact in the reader's single-precision duration as well as in the option's double)
+            scn["min_duration"] = 0.0625
+            utts.append({"id": "exactdur", "n": int(0.0625 * rate), "channels": utts[0]["channels"], "rate": rate, "container": "wav"})
+            utts.append({"id": "justbelow", "n": int(0.0625 * rate) - 1, "channels": utts[0]["channels"], "rate": rate, "container": "wav", "excluded": "min_duration"})
+        if one:
+            scn["min_duration"] = 0.0
+            scn["utts"] = utts = [u for u in utts if u.get("excluded") != "min_duration"]
         if rng.random() < 0.5:
             utts.insert(int(rng.integers(0, len(utts))), {"id": "otherrate", "n": int(0.1 * rate), "channels": utts[0]["channels"], "rate": 8000 if rate == 16000 else 16000,
                                                           "container": "wav", "excluded": "rate"})
